@@ -432,7 +432,9 @@ func (mw *msgWriter) writePart(part *Part, charset Charset) {
 		mimeHeader.Add(string(HeaderContentType), contentType)
 		mw.newPart(mimeHeader)
 	}
-	mw.writeBody(part.writeFunc, part.encoding)
+	if mw.err == nil {
+		mw.writeBody(part.writeFunc, part.encoding)
+	}
 }
 
 // writeString writes a string into the msgWriter's io.Writer interface.
